@@ -4,10 +4,14 @@ import math
 import time
 
 from harness import comp_bounds as B
+from translate import bounds as TB
 from vlib import core
 
-PROPS = "Props/C08.v"
-THEOREMS = ["C08_accept_sound", "C08_invalid_rejected", "C08_reject_sound_partial", "C08_reject_complete",
+PROPS = ["Props/C08.v", "Props/C08src.v"]
+TRANSLATORS = ["bounds"]
+THEOREMS = ["C08_tests_are_source", "C08_effective_bounds_are_source", "C08_repairs_are_source", "C08_check_is_source",
+            "C08_assemble_is_source", "C08_construct_is_source", "C08_call_is_source",
+            "C08_accept_sound", "C08_invalid_rejected", "C08_reject_sound_partial", "C08_reject_complete",
             "C08_valid_accepted", "C08_normalisation_minimal", "C08_repairs_identity_inside",
             "C08_never_overflows", "C08_inf_x0_rejected", "C08_margin_box_refuted", "C08_nan_coordinate_refuted",
             "C08_x0_on_bound_denormal_refuted"]
@@ -18,10 +22,17 @@ RULE = ("D=1: {absent,-inf,+inf,nan,-2,-1,0,1,2}^5 (59049 definitions: all in th
         "malformed stream: dimension mismatches, D=0; labelled close stream: values 0-100 ulps apart; each definition "
         "is passed to the real BADS constructor in worker processes and to Model/BoundsCheck.v; non-trivial = a "
         "definition that is accepted with a repair, or rejected by a test other than the plausible-finiteness one; "
-        "spelling stream: list/tuple/(1,D)/scalar/integer spellings against the (D,) float array")
+        "spelling stream: list/tuple/(1,D)/scalar/integer spellings against the (D,) float array; "
+        "source: _bounds_check_ is re-translated from pybads/bads/bads.py on every run (translate/bounds.py -> coq/gen/Src_bounds.v), proved equal to "
+        "Model/BoundsCheck.v's check_coords for all rows (Props/C08src.v), and the GENERATED program is evaluated by Coq on every definition of the "
+        "streams above next to the hand-written model, both against the real constructor")
 TRUSTED = [
     "Coq 8.16.1 kernel + vm_compute (case evaluation); no native_compute",
-    "hand-written model Model/BoundsCheck.v of BADS.__init__ / _bounds_check_ (N0 = 1), tied by differential comparison on the real constructor (harness/comp_bounds.py)",
+    "hand-written model Model/BoundsCheck.v of BADS.__init__ / _bounds_check_ (N0 = 1), tied by differential comparison on the real constructor (harness/comp_bounds.py); "
+    "its check_coords and assemble are PROVED equal to the programs regenerated from the source (C08_check_is_source, C08_assemble_is_source); finish (the draw of a non-finite x0) and the D = 0 crash of option loading are only pinned textually / tied dynamically",
+    "translate/bounds.py (fail-closed ast whitelist over BADS._bounds_check_ / BADS.__init__; per-coordinate reading of NumPy's element-wise operators, masks and np.any; "
+    "float literals read as the decimals they spell; `a > b` emitted as `b < a`, == with canonically ordered operands) - validated on every run: the generated program is "
+    "evaluated by Coq (vm_compute) on every definition of the tie's streams and compared with the real constructor",
     "float->Q by float.as_integer_ratio; decisions compared exactly; values moved to LB_eff/UB_eff compared at 1e-9 relative (the code multiplies by the binary64 constant 1e-3 and rounds, the model uses 1/1000 exactly)",
     "absorption corner lb + 1e-3*range == lb in binary64 (range/|lb| < ~1e-13) is outside the exact model; observed through the monitor on the labelled close stream",
     "not modelled: option loading (beyond the D=0 crash), the random draw of x0 (only plb<=x0<=pub is checked), the VariableTransformer self-test (inexact log/exp), non_box_cons, N0>1 starting sets",
@@ -117,11 +128,26 @@ def tie(ctx, broken):
     for c, r in rej[:2]:
         ctx.sample(dict(input=case_json(c), rejected=r["tag"]))
 
-    # ------------------------------------------------------------------ model vs code
+    # ------------------------------------------------------------------ model vs code, generated program vs code
     coq = [B.coq_case(c, r, approx_all=s.startswith("close:")) for (s, c), r in zip(streams, res)]
     ctx.coverage["literal_bytes"] = sum(len(s) for s in coq)
     t1 = time.time()
-    okc, bad, log = core.run_cases("C08", B.REQUIRES, B.CASE_TY, B.OK_FUN, coq, shard=max(500, -(-len(coq) // 12)), defs=B.COQ_DEFS)
+    snap, tex = TB.current()
+    sdiff = TB.diff(snap) if snap is not None else []
+    ctx.coverage["source_translation"] = dict(translatable=snap is not None, error=(str(tex)[:300] if tex else None),
+                                              differs_from_reference=[d["what"][:200] for d in sdiff][:12])
+    src_ok = TB.generated_ok() and snap is not None
+    shard = max(500, -(-len(coq) // 12))
+    bad_src = None
+    if src_ok:
+        okc, bad, bad_src, log = B.run_cases_both("C08", coq, shard=shard)
+        if not okc:          # the generated file does not even type-check: fall back to the model alone, the source tie is broken
+            src_log = log
+            okc, bad, log = core.run_cases("C08", B.REQUIRES, B.CASE_TY, B.OK_FUN, coq, shard=shard, defs=B.COQ_DEFS)
+            bad_src, src_ok = None, False
+    else:
+        src_log = "no generated program: " + (str(tex) if tex else "coq/gen/Src_bounds.v holds no definition")
+        okc, bad, log = core.run_cases("C08", B.REQUIRES, B.CASE_TY, B.OK_FUN, coq, shard=shard, defs=B.COQ_DEFS)
     ctx.coverage["coq_eval_s"] = round(time.time() - t1, 1)
     # the labelled close stream (values 0-100 ulps apart) is compared with approx_all: a value the model moves by
     # 1e-3*range may be left bit-identical by the code (absorption); DECISIONS must still agree.
@@ -138,6 +164,9 @@ def tie(ctx, broken):
             s, c = streams[i]
             model = core.coq_show("C08_show", B.REQUIRES, f"outcome_val (construct {B.coq_defn(c)})", defs=B.COQ_DEFS)
             what = f"model and constructor differ on [{s}] {case_json(c)}: real={_brief(res[i])} model{model[:300]}"
+            if bad_src is not None and i not in bad_src:
+                what += ("  [the program regenerated from the current source AGREES with the constructor on this definition: the source has changed, "
+                         "Model/BoundsCheck.v no longer describes it" + ("; " + "; ".join(d["what"][:120] for d in sdiff[:3]) if sdiff else "") + "]")
             broken.append(("correspondence:bounds_check", what))
             # not a restatement of the property (the monitor decides that): the theorems no longer apply to this code.
             # Reported once, by search(), as broken:correspondence:bounds_check with this input in the replay.
@@ -146,6 +175,26 @@ def tie(ctx, broken):
             ctx.coverage["first_disagreements"] = [dict(stream=streams[j][0], input=case_json(streams[j][1]), real=_brief(res[j])) for j in hard_bad[:10]]
         else:
             broken.append(("correspondence:bounds_check", "case files did not compile: " + log[-300:]))
+    # the translator is checked, not trusted: the GENERATED program against the real constructor on the same definitions
+    if bad_src is not None:
+        ctx.coverage["source_program_validated_on"] = len(streams) - len(bad_src)
+        ctx.count(len(streams), 0)
+        good = ctx.oblige("correspondence:bounds_source", "correspondence", not bad_src,
+                          f"generated programs (coq/gen/Src_bounds.v: run_head src_head, run_prog src_prog) vs real constructor: {len(bad_src)} of {len(streams)} definitions differ")
+        if not good:
+            i = bad_src[0]
+            s, c = streams[i]
+            prog = core.coq_show("C08_show_src", B.REQUIRES_SRC, f"construct_with2 src_head src_prog {B.coq_defn(c)}", defs=B.COQ_DEFS)
+            what = (f"the program translated from the source and the real constructor differ on [{s}] {case_json(c)}: real={_brief(res[i])} generated{prog[:300]}"
+                    + ("  [the hand-written model agrees with the constructor here: TRANSLATOR fault]" if i not in bad else ""))
+            broken.append(("correspondence:bounds_source", what))
+            if not getattr(ctx, "c08_differing", None):
+                ctx.c08_differing = dict(kind="definition", input=case_json(c), spelling="arr", compare="model")
+            ctx.coverage["first_source_disagreements"] = [dict(stream=streams[j][0], input=case_json(streams[j][1]), real=_brief(res[j])) for j in bad_src[:10]]
+    else:
+        ctx.oblige("correspondence:bounds_source", "correspondence", False, src_log[-400:])
+        if not any(n == "translate:bounds" for n, _ in broken):
+            broken.append(("correspondence:bounds_source", "the generated program could not be evaluated: " + src_log[-300:]))
 
     ncalls = sum(r["calls"] for r in res)
     ctx.oblige("C08_no_target_call", "correspondence", ncalls == 0,
@@ -258,24 +307,75 @@ def spelling_check(ctx, rng, streams, res, found):
             found[key] = (found[key][0] + ":" + k,) + found[key][1:]
 
 
+def aim(ctx):
+    """(focus, others, constants, description): the tests / guards of the current source that differ from the reference
+    translation (or the test at which the translation stopped), every other test, and the margin constants of both."""
+    snap, tex = TB.current()
+    ref = TB.reference()
+    fj = TB.fromjson
+
+    def preds(sn):
+        out = []
+        for st in (sn or {}).get("steps", []):
+            out.append((st["tag"], [fj(t) for t in st["disj"]]))
+        return out
+
+    consts = set()
+    for sn in (snap, ref):
+        for st in (sn or {}).get("steps", []):
+            for t in st["disj"]:
+                consts |= TB.constants(fj(t))
+    focus, desc = [], []
+    if snap is None:
+        tag = getattr(tex, "tag", None)
+        desc.append(f"translation stopped: {tex}")
+        for lab, trees in preds(ref):
+            if tag is not None and lab == tag:
+                focus.append((lab + " (reference reading)", trees))
+    else:
+        for d in TB.diff(snap, ref):
+            desc.append(d["what"])
+            for side, nm in ((d.get("cur"), "current"), (d.get("ref"), "reference")):
+                if side and side.get("disj"):
+                    focus.append((f"{side['tag']} ({nm} reading)", [fj(t) for t in side["disj"]]))
+            if d.get("tag") in ("lb_eff", "ub_eff"):
+                # everything that compares with an effective bound
+                for sn, nm in ((snap, "current"), (ref, "reference")):
+                    for lab, trees in preds(sn):
+                        if lab in ("TooClose", "cx", "cpl+cpu", "StrictBounds2"):
+                            focus.append((f"{lab} ({nm} reading)", trees))
+            if d.get("tag") is None and "order" in d["what"]:
+                # reordered / dropped tests: definitions on which two tests fire at once are what tells the orders apart
+                for lab, trees in preds(ref):
+                    focus.append((lab + " (reference reading)", trees))
+    others = preds(snap if snap is not None else ref)
+    return focus, others, consts, desc
+
+
 def search(ctx, broken):
-    """Something is broken and the tie produced no concrete failing input: run the monitor over fresh metric
-    cases.  If no clause of the text fails anywhere, report each broken obligation ONCE (non-concrete); the
-    correspondence one carries the differing definition in its replay."""
-    cases = B.gen_metric(ctx.rng, 4000)
+    """Something is broken and the tie produced no concrete failing input: run the declarative monitor over cases AIMED at
+    the tests / constants of the source that changed (translate/bounds.py knows which), then over fresh metric cases.  If no
+    clause of the text fails anywhere, report each broken obligation ONCE (non-concrete); the correspondence one carries the
+    differing definition in its replay."""
+    focus, others, consts, desc = aim(ctx)
+    aimed = B.gen_aimed(ctx.rng, focus, others, consts, 6000 if focus else 2500)
+    ctx.coverage["search"] = dict(source_change=[d[:200] for d in desc][:8], aimed_at=sorted({f[0] for f in focus})[:12], aimed_cases=len(aimed))
+    cases = [c for _, c in aimed] + B.gen_metric(ctx.rng, 4000)
+    notes = [a for a, _ in aimed] + ["metric"] * 4000
     out = B.run_jobs([(c, "arr", False) for c in cases])
     known = {k["key"] for k in core.load_known() if k.get("property") == "C08" and k.get("status") == "open"}
-    for c, r in zip(cases, out):
+    for c, r, a in zip(cases, out, notes):
         m = B.monitor(c, r)
         if m and m[0] not in known:
             small = B.shrink(c, m[0])
-            ctx.violate(m[0], m[1], dict(kind="definition", input=case_json(small), spelling="arr"))
+            ctx.violate(m[0], m[1] + f"  [search aimed at: {a}]" + (f"  [source change: {desc[0][:160]}]" if desc else ""),
+                        dict(kind="definition", input=case_json(small), spelling="arr"))
             return True
     for name, what in broken:
-        rp = dict(broken_obligation=name, detail=what)
-        if name == "correspondence:bounds_check" and getattr(ctx, "c08_differing", None):
+        rp = dict(broken_obligation=name, detail=what, source_change=desc[:6])
+        if name.startswith("correspondence:bounds_") and getattr(ctx, "c08_differing", None):
             rp.update(ctx.c08_differing)
-        ctx.violate("broken:" + name, what, rp, concrete=False)
+        ctx.violate("broken:" + name, what + (f"  [source change: {'; '.join(d[:160] for d in desc[:3])}]" if desc else ""), rp, concrete=False)
     return True
 
 
@@ -299,6 +399,19 @@ def replay(ctx, rp):
         print("model vs constructor:", "agree" if ok and not bad else "DIFFER")
         if not ok or bad:
             rc = 1
+        try:
+            TB.emit()
+        except Exception as ex:
+            print("generated program: source not translatable:", ex)
+            rc = 1
+        else:
+            ok2, bad2, log2 = core.run_cases("C08_replay_src", B.REQUIRES_SRC, B.CASE_TY, B.OK_FUN_SRC,
+                                             [B.coq_case(case, res, approx_all=True)], defs=B.COQ_DEFS)
+            prog = core.coq_show("C08_show_src", B.REQUIRES_SRC, f"construct_with2 src_head src_prog {B.coq_defn(case)}", defs=B.COQ_DEFS)
+            print("generated program (translate/bounds.py on the current source):", prog[:400])
+            print("generated program vs constructor:", "agree" if ok2 and not bad2 else "DIFFER")
+            if not ok2 or bad2:
+                rc = 1
     if rp.get("key", "").startswith(("spelling", "int-spelling", "x0-absent")):
         for kk in B.spellings_for(case):
             d = B.same_problem(res, B.run_real(case, kk))
